@@ -11,7 +11,7 @@ ID = "C09"
 TOL = 2e-5   # api-core derives per-attempt timeouts through datetime (microsecond resolution)
 
 PROFILE = grammar.profile(
-    p_service_config=1.0, p_sstream=0.15, p_cstream=0.0, p_bidi=0.0, p_lro=0.15, p_yaml=0.1, p_list=0.7,
+    p_service_config=1.0, p_sstream=0.25, p_cstream=0.0, p_bidi=0.0, p_lro=0.3, p_yaml=0.1, p_list=0.7,
     transports=["grpc", "grpc", "grpc+rest"], p_custom=0.6, p_get=1.0)
 
 BUDGET = {
@@ -23,7 +23,7 @@ ASSUMPTIONS = ["maxAttempts is not judged (the generator ignores it and the prop
 REQUIRED_PROBES = ["retry_fired", "deadline_exhausted", "nonretryable_surface", "unnamed_method_called",
                    "async_retry_fired", "explicit_retry", "explicit_timeout", "attempt_deadline_fired",
                    "timeout_without_retry", "retry_without_timeout", "rest_call", "rest_retry_fired", "paged_call",
-                   "later_page_fetch_walked"]
+                   "later_page_fetch_walked", "lro_call", "sstream_call"]
 
 
 def gen_spec(rng):
@@ -91,6 +91,18 @@ def _msg_fields(spec, full):
     return {f["name"] for f in m["fields"]}
 
 
+def lro_and_stream_methods(spec):
+    out = []
+    for fs, s, m in grammar.all_methods(spec):
+        if m.get("client_streaming"):
+            continue
+        if m.get("server_streaming") or (m["output"] == ".google.longrunning.Operation" and m.get("lro") is not None):
+            from ..world import find_message
+            if find_message(spec, m["input"]) is not None:
+                out.append((fs, s, m))
+    return out
+
+
 def paged_methods(spec):
     from . import c07
     return [(fs, s, m, cls) for fs, s, m, cls in c07.list_methods(spec) if cls is not None]
@@ -99,8 +111,9 @@ def paged_methods(spec):
 def gen_scenarios(spec, rng, n):
     meths = eligible_methods(spec)
     paged = paged_methods(spec)
+    others = lro_and_stream_methods(spec)
     codec = None
-    if paged:
+    if paged or others:
         from .. import protos
         files, _ = protos.lower(spec)
         codec = protos.Codec(files)
@@ -127,6 +140,23 @@ def gen_scenarios(spec, rng, n):
                     op.pop(k2, None)
                 op["lat"] = rng.choice([0.0, 0.01, 0.3])
                 op["jitter"] = [rng.choice([0.0, 0.5, 1.0]) for _ in range(12)]
+                rng.choice(actors)["ops"].append(op)
+                continue
+            if others and client != "rest" and rng.random() < 0.15:
+                # long-running methods (initial call) and server-streaming methods are wrapped with the same table
+                fs, s, m = rng.choice(others)
+                op = gen_op(spec, rng, fs, s, m, f"o{j}", client)
+                if m.get("server_streaming"):
+                    op["kind"] = "sstream"
+                    op["server"] = [{"items": [], "lat": op["server"][-1].get("lat", 0.0)}]   # first-attempt deadline only
+                else:
+                    from . import c08
+                    l = c08.gen_op(spec, rng, codec, fs, s, m, f"o{j}")
+                    l.update({"initial_done": True, "poll_script": {}, "read_metadata": False, "call": op["call"], "jitter": op["jitter"],
+                              "request": {}, "form": op["form"], "server": [x for x in op["server"] if x.get("code") or x.get("lat", 0) and False]})
+                    if "error" in l["final"]:
+                        l["final"] = {"response": {}} if c08.resolve(m["lro"]["response_type"], fs["package"]) == "google.protobuf.Empty" else l["final"]
+                    op = l
                 rng.choice(actors)["ops"].append(op)
                 continue
             fs, s, m = rng.choice(meths)
@@ -219,7 +249,7 @@ def gen_op(spec, rng, fs, s, m, oid, client):
 
 def server_factory(run):
     from . import c06
-    return c06.server_factory(run)      # paged ops -> page-history server, others -> scripted server
+    return c06.server_factory(run)      # paged ops -> page-history server, lro -> operation server, others -> scripted
 
 
 def execute(world, scenario):
@@ -322,6 +352,12 @@ def judge_op(spec, scenario, op, evs, probes):
         elif outcome["k"] != "return":
             return V("wrong_outcome", f"all fetches succeeded but the iteration raised {outcome.get('cls')}: {outcome.get('msg')}")
         return []
+    if op["kind"] in ("lro", "sstream"):
+        _bump(probes, op["kind"] + "_call")
+        attempts = [a for a in attempts if a["path"] == path]
+        if op["kind"] == "lro" and outcome["k"] == "raise" and outcome.get("stage") == "result":
+            outcome = dict(outcome, k="return")          # the operation's own error: the CALL succeeded
+        outcome = dict(outcome, t=ends[attempts[-1]["n"]]["t"]) if attempts and attempts[-1]["n"] in ends and outcome["k"] == "return" else outcome
     r = walk_call(ctx, attempts, invoke["t"], first_fetch=True)
     if r.get("viol"):
         return V(*r["viol"])
